@@ -159,6 +159,30 @@ func genRaftJobs(tp *Tape, n int) []rJob {
 		}
 		j := rJob{txn: true, ro: tp.Pick(6) == 5, rollback: tp.Pick(8) == 7}
 		nops := 1 + tp.Pick(5)
+		if tp.Pick(5) == 0 {
+			// a paginating reader: several pages / listings of ONE prefix (first
+			// page, next page after the last entry seen, full listing) and then a
+			// write - listings of one transaction share their verification state
+			pfx := c08Prefixes[tp.Pick(len(c08Prefixes))]
+			lim := 1 + tp.Pick(3)
+			j.ro, j.rollback = false, false
+			j.ops = append(j.ops, rJobOp{kind: "page", key: pfx, after: "", limit: lim})
+			for o := 0; o < 1+tp.Pick(3); o++ {
+				switch tp.Pick(4) {
+				case 0:
+					j.ops = append(j.ops, rJobOp{kind: "list", key: pfx})
+				case 1:
+					j.ops = append(j.ops, rJobOp{kind: "page", key: pfx, after: "", limit: []int{-1, lim + 1, 10}[tp.Pick(3)]})
+				case 2:
+					j.ops = append(j.ops, rJobOp{kind: "page", key: pfx, after: "$last", limit: lim})
+				default:
+					j.ops = append(j.ops, rJobOp{kind: "get", key: c08Keys[tp.Pick(len(c08Keys))]})
+				}
+			}
+			j.ops = append(j.ops, rJobOp{kind: "put", key: c08Keys[tp.Pick(len(c08Keys))]})
+			jobs = append(jobs, j)
+			continue
+		}
 		for o := 0; o < nops; o++ {
 			k := c08Keys[tp.Pick(len(c08Keys))]
 			switch tp.Pick(7) {
@@ -338,6 +362,15 @@ func RunRaftWorkload(rc *RunCtx, h *RaftH, prop string) *RaftRun {
 						t.ops = append(t.ops, obs{kind: 'l', key: op.key, result: l})
 						note("%s T%d list %q=%v", name, t.id, op.key, l)
 					case "page":
+						if op.after == "$last" { // continue after the last entry this transaction has seen
+							op.after = ""
+							for i := len(t.ops) - 1; i >= 0; i-- {
+								if o := t.ops[i]; (o.kind == 'p' || o.kind == 'l') && o.key == op.key && len(o.result) > 0 {
+									op.after = o.result[len(o.result)-1]
+									break
+								}
+							}
+						}
 						l, err := tx.ListPage(ctx, op.key, op.after, op.limit)
 						if err != nil {
 							s.Violate(prop, "tx-listpage-failed", map[string]any{"backend": "raft"}, "T%d listpage: %v", t.id, err)
